@@ -4,8 +4,91 @@
 //! hash and the parent compares the streams line by line. One model stream (`unusedvars`) ties the
 //! Lean model of `validate_unused_variables` to the implementation.
 use crate::util::*;
+use apollo_compiler::diagnostic::Color;
+use apollo_compiler::resolvers::{Execution, FieldError, ObjectValue, ResolveInfo, ResolvedValue};
+use apollo_compiler::schema::ExtendedType;
+use apollo_compiler::validation::Valid;
 use apollo_compiler::{ast, ExecutableDocument, Schema};
+use apollo_smith::{RandomProvider, ResponseBuilder, ResponseError};
 use std::fmt::Write as _;
+
+// ---- a resolver for any schema: every field gets a value determined by its type and name only ----
+struct Mock<'s> { schema: &'s Valid<Schema>, ty: String, depth: usize }
+
+/// values the mock resolver may still produce for the current input (nested list types would otherwise explode)
+static BUDGET: std::sync::atomic::AtomicUsize = std::sync::atomic::AtomicUsize::new(0);
+fn spend() -> bool { BUDGET.fetch_update(std::sync::atomic::Ordering::SeqCst, std::sync::atomic::Ordering::SeqCst, |b| b.checked_sub(1)).is_ok() }
+
+fn mock_named<'a>(schema: &'a Valid<Schema>, name: &str, key: &str, depth: usize) -> Result<ResolvedValue<'a>, FieldError> {
+    let h = fnv(key);
+    if depth > 7 || h % 11 == 0 || !spend() { return if h % 2 == 0 { Ok(ResolvedValue::null()) } else { Err(FieldError { message: format!("no value for {key}") }) } }
+    match schema.types.get(name) {
+        Some(ExtendedType::Scalar(_)) => Ok(match name { "Int" => ResolvedValue::leaf((h % 1000) as i32), "Float" => ResolvedValue::leaf(1.5), "Boolean" => ResolvedValue::leaf(h % 2 == 0), _ => ResolvedValue::leaf(format!("s{}", h % 97)) }),
+        Some(ExtendedType::Enum(e)) => Ok(match e.values.keys().nth((h % 3) as usize % e.values.len().max(1)) { Some(v) => ResolvedValue::leaf(v.to_string()), None => ResolvedValue::null() }),
+        Some(ExtendedType::Object(_)) => Ok(ResolvedValue::object(Mock { schema, ty: name.to_string(), depth: depth + 1 })),
+        Some(ExtendedType::Interface(_)) | Some(ExtendedType::Union(_)) => {
+            // a concrete type, chosen from the schema's own (insertion-ordered) declarations
+            let objs: Vec<String> = schema.types.iter().filter_map(|(n, t)| match t {
+                ExtendedType::Object(o) if o.implements_interfaces.contains(name) => Some(n.to_string()),
+                _ => None }).chain(match schema.types.get(name) { Some(ExtendedType::Union(u)) => u.members.iter().map(|m| m.to_string()).collect::<Vec<_>>(), _ => vec![] }).collect();
+            if objs.is_empty() { Ok(ResolvedValue::null()) } else { Ok(ResolvedValue::object(Mock { schema, ty: objs[(h as usize) % objs.len()].clone(), depth: depth + 1 })) }
+        }
+        _ => Ok(ResolvedValue::null()),
+    }
+}
+
+fn mock_value<'a>(schema: &'a Valid<Schema>, ty: &'a ast::Type, key: String, depth: usize) -> Result<ResolvedValue<'a>, FieldError> {
+    match ty {
+        ast::Type::Named(n) | ast::Type::NonNullNamed(n) => mock_named(schema, n.as_str(), &key, depth),
+        ast::Type::List(inner) | ast::Type::NonNullList(inner) => {
+            let n = if depth > 7 || !spend() { 0 } else { (fnv(&key) % 3) as usize };
+            Ok(ResolvedValue::List(Box::new((0..n).map(move |i| mock_value(schema, inner, format!("{key}/{i}"), depth + 1)))))
+        }
+    }
+}
+
+impl<'s> ObjectValue for Mock<'s> {
+    fn type_name(&self) -> &str { &self.ty }
+    fn resolve_field<'a>(&'a self, info: &'a ResolveInfo<'a>) -> Result<ResolvedValue<'a>, FieldError> {
+        let key = format!("{}.{}{}", self.ty, info.field_name(), serde_json::to_string(info.arguments()).unwrap_or_default());
+        mock_value(self.schema, &info.field_definition().ty, key, self.depth)
+    }
+}
+
+struct FixedRng(Rng);
+impl FixedRng { fn draw(&mut self, n: u64) -> u64 { if n == 0 { 0 } else { self.0.next() % n } } }
+impl RandomProvider for FixedRng {
+    fn gen_bool(&mut self) -> Result<bool, ResponseError> { Ok(self.draw(2) == 1) }
+    fn gen_i32_range(&mut self, min: i32, max: i32) -> Result<i32, ResponseError> { Ok(min + self.draw((max - min) as u64 + 1) as i32) }
+    fn gen_usize_range(&mut self, min: usize, max: usize) -> Result<usize, ResponseError> { Ok(min + self.draw((max - min) as u64 + 1) as usize) }
+    fn gen_f64_range(&mut self, _min: f64, _max: f64) -> Result<f64, ResponseError> { self.draw(1); Ok(0.5) }
+    fn gen_alphanumeric_char(&mut self) -> Result<char, ResponseError> { Ok((b'a' + self.draw(26) as u8) as char) }
+    fn choose_index(&mut self, len: usize) -> Result<usize, ResponseError> { if len == 0 { return Err(ResponseError::EmptyChoose); } Ok(self.draw(len as u64) as usize) }
+    fn ratio(&mut self, numerator: u32, denominator: u32) -> Result<bool, ResponseError> { Ok(self.draw(denominator as u64) < numerator as u64) }
+}
+
+/// variable values for an operation, determined by the variable names only (some missing, some of the wrong type)
+fn variable_values(op: &apollo_compiler::executable::Operation) -> apollo_compiler::response::JsonMap {
+    let mut m = apollo_compiler::response::JsonMap::new();
+    for v in op.variables.iter() {
+        let tys = v.ty.to_string();
+        let h = (fnv(v.name.as_str()) ^ fnv(&tys)).wrapping_mul(31).wrapping_add(fnv(&op.selection_set.to_string()));
+        let base = tys.trim_matches(|c| c == '[' || c == ']' || c == '!');
+        let good: serde_json_bytes::Value = match base {
+            "Int" => serde_json_bytes::json!(7), "Float" => serde_json_bytes::json!(2.5), "String" | "ID" => serde_json_bytes::json!("x"), "Boolean" => serde_json_bytes::json!(h % 2 == 0),
+            "E" => serde_json_bytes::json!("B"), "In" => serde_json_bytes::json!({"a": 1, "b": ["q"], "c": {"b": []}}),
+            _ => serde_json_bytes::json!({"a": 1, "b": [1, 2]}),
+        };
+        let val: serde_json_bytes::Value = match h % 14 {
+            0 => continue,
+            1 => serde_json_bytes::Value::Null,
+            2 => serde_json_bytes::Value::String("wrong".into()),
+            _ => if tys.starts_with('[') && h % 2 == 0 { serde_json_bytes::Value::Array(vec![good.clone(), good]) } else { good },
+        };
+        m.insert(v.name.as_str(), val);
+    }
+    m
+}
 
 fn fnv(s: &str) -> u64 {
     let mut h: u64 = 0xcbf29ce484222325;
@@ -28,12 +111,31 @@ fn outputs(schema_src: &str, doc_src: &str) -> Vec<(&'static str, String)> {
     out.push(("schema-serialized", schema.to_string()));
     let valid = match schema.validate() {
         Ok(v) => { out.push(("schema-valid-serialized", v.to_string())); Some(v) }
-        Err(e) => { out.push(("schema-validate-diagnostics", e.errors.to_string())); let j: Vec<String> = e.errors.iter().map(|d| serde_json::to_string(&d.to_json()).unwrap()).collect(); out.push(("schema-validate-json", j.join("\n"))); None }
+        Err(e) => {
+            out.push(("schema-validate-diagnostics", e.errors.to_string()));
+            let j: Vec<String> = e.errors.iter().map(|d| serde_json::to_string(&d.to_json()).unwrap()).collect(); out.push(("schema-validate-json", j.join("\n")));
+            let r: Vec<String> = e.errors.iter().map(|d| d.to_report(Color::Never).into_string()).collect(); out.push(("schema-validate-report", r.join("\n")));
+            out.push(("schema-partial-serialized", e.partial.to_string()));
+            None
+        }
     };
+    if let Some(v) = &valid {
+        // the order of the type map after validation (pruned / restored built-in scalars), and the implementers of every interface
+        out.push(("valid-type-order", v.types.keys().map(|k| k.as_str()).collect::<Vec<_>>().join(",")));
+        out.push(("valid-directive-order", v.directive_definitions.keys().map(|k| k.as_str()).collect::<Vec<_>>().join(",")));
+        let imap = v.implementers_map();
+        let imp: Vec<String> = v.types.keys().filter_map(|k| imap.get(k).map(|i| format!("{k}:{}|{}", i.objects.iter().map(|x| x.as_str()).collect::<Vec<_>>().join(","), i.interfaces.iter().map(|x| x.as_str()).collect::<Vec<_>>().join(",")))).collect();
+        out.push(("implementers", imp.join(";")));
+        out.push(("schema-valid-compact", v.serialize().no_indent().to_string()));
+    }
     match ast::Document::parse(doc_src, "doc.graphql") {
         Ok(d) => {
             out.push(("ast-serialized", d.to_string()));
             if let Err(e) = d.validate_standalone_executable() { out.push(("standalone-diagnostics", e.to_string())); }
+            match d.to_mixed_validate() {
+                Ok((s2, d2)) => out.push(("ast-mixed-serialized", format!("{s2}\n{d2}"))),
+                Err(e) => out.push(("ast-mixed-diagnostics", e.to_string())),
+            }
         }
         Err(e) => out.push(("ast-diagnostics", e.errors.to_string())),
     }
@@ -43,7 +145,55 @@ fn outputs(schema_src: &str, doc_src: &str) -> Vec<(&'static str, String)> {
             Err(e) => { out.push(("exec-build-diagnostics", e.errors.to_string())); e.partial }
         };
         out.push(("exec-serialized", doc.to_string()));
-        if let Err(e) = doc.validate(valid) { out.push(("exec-validate-diagnostics", e.errors.to_string())); }
+        match doc.validate(valid) {
+            Err(e) => {
+                out.push(("exec-validate-diagnostics", e.errors.to_string()));
+                let j: Vec<String> = e.errors.iter().map(|d| serde_json::to_string(&d.to_json()).unwrap()).collect(); out.push(("exec-validate-json", j.join("\n")));
+                let r: Vec<String> = e.errors.iter().map(|d| d.to_report(Color::Never).into_string()).collect(); out.push(("exec-validate-report", r.join("\n")));
+            }
+            Ok(vd) => {
+                // request processing on the validated document: variables, execution with a mock resolver,
+                // introspection of the document's own operations, apollo-smith responses with a fixed rng
+                let imap = valid.implementers_map();
+                // nested list types: keep generated lists at one item
+                let max_list = if schema_src.contains("[[[") { 1 } else { 2 };
+                let mut coerced = String::new(); let mut executed = String::new(); let mut intro = String::new(); let mut smith = String::new(); let mut depth = String::new();
+                for (k, op) in vd.operations.iter().enumerate().take(4) {
+                    let raw = variable_values(op);
+                    match apollo_compiler::request::coerce_variable_values(valid, op, &raw) {
+                        Ok(m) => { write!(coerced, "{k}:{}\n", serde_json::to_string(&*m).unwrap_or_default()).unwrap(); }
+                        Err(e) => { write!(coerced, "{k}:ERR {}\n", serde_json::to_string(&e.to_graphql_error(&vd.sources)).unwrap_or_default()).unwrap(); }
+                    }
+                    write!(depth, "{k}:{}\n", apollo_compiler::introspection::check_max_depth(&vd, op).is_ok()).unwrap();
+                    let root_ty = valid.root_operation(op.operation_type).map(|n| n.to_string()).unwrap_or_default();
+                    BUDGET.store(5_000, std::sync::atomic::Ordering::SeqCst);
+                    let root = Mock { schema: valid, ty: root_ty, depth: 0 };
+                    match Execution::new(valid, &vd).operation(op).implementers_map(&imap).raw_variable_values(&raw).enable_schema_introspection(true).execute_sync(&root) {
+                        Ok(resp) => { write!(executed, "{k}:{}\n", serde_json::to_string(&resp).unwrap_or_default()).unwrap(); }
+                        Err(e) => { write!(executed, "{k}:ERR {}\n", serde_json::to_string(&e.to_graphql_error(&vd.sources)).unwrap_or_default()).unwrap(); }
+                    }
+                    if op.operation_type == ast::OperationType::Query && apollo_compiler::introspection::check_max_depth(&vd, op).is_ok() {
+                        if let Ok(vars) = apollo_compiler::request::coerce_variable_values(valid, op, &Default::default()) {
+                            match apollo_compiler::introspection::partial_execute(valid, &imap, &vd, op, &vars) {
+                                Ok(resp) => { write!(intro, "{k}:{}\n", serde_json::to_string(&resp).unwrap_or_default()).unwrap(); }
+                                Err(e) => { write!(intro, "{k}:ERR {}\n", serde_json::to_string(&e.to_graphql_error(&vd.sources)).unwrap_or_default()).unwrap(); }
+                            }
+                        }
+                    }
+                    let mut rng = FixedRng(Rng(0x5eed ^ k as u64));
+                    let name = op.name.as_ref().map(|n| n.as_str());
+                    match ResponseBuilder::new(&mut rng, &vd, valid).with_min_list_size(0).with_max_list_size(max_list).with_operation_name(name).build() {
+                        Ok(v) => { write!(smith, "{k}:{}\n", serde_json::to_string(&v).unwrap_or_default()).unwrap(); }
+                        Err(e) => { write!(smith, "{k}:ERR {e}\n").unwrap(); }
+                    }
+                }
+                out.push(("coerced-variables", coerced));
+                out.push(("max-depth", depth));
+                out.push(("execution-response", executed));
+                out.push(("operation-introspection", intro));
+                out.push(("smith-response", smith));
+            }
+        }
         // introspection
         if let Ok(q) = ExecutableDocument::parse_and_validate(valid, INTROSPECTION, "i.graphql") {
             let imap = valid.implementers_map();
@@ -83,6 +233,79 @@ pub fn vars_doc(rng: &mut Rng) -> (String, String) {
     (schema, d)
 }
 
+const EXEC_SCHEMA: &str = "type Query { a(x: Int, s: String = \"d\", i: In, l: [Int!]): Int b: String n: Node ns(first: Int = 2): [Node!]! u: U us: [U] e(v: E = A): E q: Query t1: T1 }
+interface Node { id: ID! name: String }
+type T1 implements Node { id: ID! name: String t1: Int q: Query peers: [[T1!]] }
+type T2 implements Node { id: ID! name: String t2: [E] f: Float }
+union U = T1 | T2
+enum E { A B C }
+input In { a: Int = 3 b: [String!] c: In }
+type Mutation { set(x: Int!): Int q: Query }";
+
+/// valid operations on a fixed schema: variables (all used), aliases, fragments, abstract types, lists, @skip/@include
+fn exec_doc(rng: &mut Rng) -> (String, String) {
+    fn sels(rng: &mut Rng, ty: &str, depth: usize, o: &mut String, frags: &mut Vec<(String, String)>) {
+        let n = 1 + rng.below(4);
+        for _ in 0..n {
+            if rng.chance(1, 5) { o.push_str("__typename "); continue }
+            let alias = if rng.chance(1, 4) { format!("k{}: ", rng.below(4)) } else { String::new() };
+            let dir = match rng.below(8) { 0 => " @skip(if: $b)", 1 => " @include(if: $b)", 2 => " @include(if: true)", _ => "" };
+            let obj = |rng: &mut Rng, name: &str, t: &str, o: &mut String, frags: &mut Vec<(String, String)>| {
+                if depth >= 3 { o.push_str("__typename "); return }
+                write!(o, "{alias}{name}{dir} {{ ").unwrap(); sels(rng, t, depth + 1, o, frags); o.push_str("} ");
+            };
+            match ty {
+                "Query" => match rng.below(10) {
+                    0 => write!(o, "{alias}a(x: $x, s: $s, i: $i, l: $l){dir} ").unwrap(),
+                    1 => write!(o, "{alias}a(x: 1, i: {{a: $x, c: {{b: [\"z\"]}}}}){dir} ").unwrap(),
+                    2 => write!(o, "{alias}b{dir} ").unwrap(),
+                    3 => write!(o, "{alias}e(v: $e){dir} ").unwrap(),
+                    4 => obj(rng, "n", "Node", o, frags),
+                    5 => obj(rng, "ns(first: $x)", "Node", o, frags),
+                    6 => obj(rng, "u", "U", o, frags),
+                    7 => obj(rng, "us", "U", o, frags),
+                    8 => obj(rng, "q", "Query", o, frags),
+                    _ => obj(rng, "t1", "T1", o, frags),
+                },
+                "Node" => match rng.below(5) {
+                    0 => write!(o, "{alias}id{dir} ").unwrap(), 1 => write!(o, "{alias}name{dir} ").unwrap(),
+                    2 => { o.push_str("... on T1 { "); sels(rng, "T1", depth + 1, o, frags); o.push_str("} ") }
+                    3 => { o.push_str("... on T2 { "); sels(rng, "T2", depth + 1, o, frags); o.push_str("} ") }
+                    _ => { let k = frags.len(); let mut b = String::new(); sels(rng, "Node", depth + 1, &mut b, frags); frags.push((format!("F{k} on Node"), b)); write!(o, "...F{k} ").unwrap() }
+                },
+                "U" => match rng.below(3) {
+                    0 => { o.push_str("... on T1 { "); sels(rng, "T1", depth + 1, o, frags); o.push_str("} ") }
+                    1 => { o.push_str("... on T2 { "); sels(rng, "T2", depth + 1, o, frags); o.push_str("} ") }
+                    _ => { o.push_str("... on Node { "); sels(rng, "Node", depth + 1, o, frags); o.push_str("} ") }
+                },
+                "T1" => match rng.below(5) {
+                    0 => write!(o, "{alias}id{dir} ").unwrap(), 1 => write!(o, "{alias}t1{dir} ").unwrap(),
+                    2 => obj(rng, "q", "Query", o, frags), 3 => obj(rng, "peers", "T1", o, frags),
+                    _ => write!(o, "{alias}name{dir} ").unwrap(),
+                },
+                _ => match rng.below(3) { 0 => write!(o, "{alias}t2{dir} ").unwrap(), 1 => write!(o, "{alias}f{dir} ").unwrap(), _ => write!(o, "{alias}id{dir} ").unwrap() },
+            }
+        }
+    }
+    let mut d = String::new();
+    let nops = 1 + rng.below(3);
+    let mut frags = vec![];
+    for k in 0..nops {
+        let mut body = String::new();
+        let mutation = rng.chance(1, 6);
+        if mutation { body.push_str("set(x: 1) q { "); sels(rng, "Query", 1, &mut body, &mut frags); body.push_str("} "); } else { sels(rng, "Query", 0, &mut body, &mut frags); }
+        // declare exactly the variables the operation (and its fragments, conservatively all) may use
+        let all = format!("{body}{}", frags.iter().map(|f| f.1.as_str()).collect::<String>());
+        let mut decl = vec![];
+        for (v, t) in [("$x", "Int"), ("$s", "String = \"v\""), ("$i", "In"), ("$l", "[Int!]"), ("$e", "E = C"), ("$b", "Boolean!")] { if all.contains(v) { decl.push(format!("{v}: {t}")); } }
+        let vars = if decl.is_empty() { String::new() } else { format!("({})", decl.join(", ")) };
+        write!(d, "{} Op{k}{vars} {{ {body}}}\n", if mutation { "mutation" } else { "query" }).unwrap();
+        if !frags.is_empty() && k + 1 < nops { /* fragments are shared by the operations that spread them */ }
+    }
+    for (h, b) in &frags { write!(d, "fragment {h} {{ {b}}}\n").unwrap(); }
+    (EXEC_SCHEMA.to_string(), d)
+}
+
 /// schema texts with cyclic / diamond `implements` graphs, as an existing document for apollo-smith
 fn smith_base(rng: &mut Rng) -> String {
     let k = 2 + rng.below(5);
@@ -114,6 +337,7 @@ fn smith_outputs(bytes: &[u8], base: Option<&str>) -> String {
 
 #[derive(Clone, Copy)]
 pub struct Plan { pub seed: u64, pub soups: u64, pub vars: u64, pub smith: u64 }
+fn exec_count(plan: Plan) -> u64 { plan.vars / 2 }
 
 pub enum Input { Compiler(String, String), Smith(Vec<u8>, Option<String>) }
 
@@ -122,6 +346,7 @@ pub fn input(plan: Plan, kind: &str, idx: u64) -> Input {
     match kind {
         "soup" => { let (s, d) = crate::p21::soup_instance(plan.seed, idx); Input::Compiler(s, d) }
         "vars" => { let (s, d) = vars_doc(&mut rng); Input::Compiler(s, d) }
+        "exec" => { let (s, d) = exec_doc(&mut rng); Input::Compiler(s, d) }
         "family" => {
             let f = crate::p21::FAMILIES[(idx as usize) % crate::p21::FAMILIES.len()];
             let n = [3usize, 40, 110, 140][(idx as usize / crate::p21::FAMILIES.len()) % 4];
@@ -136,22 +361,61 @@ pub fn input(plan: Plan, kind: &str, idx: u64) -> Input {
     }
 }
 
-fn kinds(plan: Plan) -> Vec<(&'static str, u64)> { vec![("family", 48), ("vars", plan.vars), ("soup", plan.soups), ("smith", plan.smith)] }
+fn kinds(plan: Plan) -> Vec<(&'static str, u64)> { vec![("family", 48), ("vars", plan.vars), ("exec", exec_count(plan)), ("soup", plan.soups), ("smith", plan.smith)] }
 
 /// `VH_C22_CHILD=seed:soups:vars:smith`
 pub fn child_main(spec: &str) {
+    if let Some(rest) = spec.strip_prefix("show:") {
+        // developer aid: `show:<kind>:<idx>:<seed>` prints every output of one input in full
+        let f: Vec<&str> = rest.split(':').collect();
+        let plan = Plan { seed: f[2].parse().unwrap(), soups: 0, vars: 0, smith: 0 };
+        if let Input::Compiler(s, d) = input(plan, f[0], f[1].parse().unwrap()) {
+            println!("SCHEMA {s}\nDOCUMENT {d}");
+            for (k, v) in outputs(&s, &d) { println!("== {k}\n{v}"); }
+        }
+        println!("DONE");
+        return;
+    }
     let p: Vec<u64> = spec.split(':').map(|x| x.parse().unwrap()).collect();
     let plan = Plan { seed: p[0], soups: p[1], vars: p[2], smith: p[3] };
     for (kind, n) in kinds(plan) {
         for idx in 0..n {
             let line = match catch(|| match input(plan, kind, idx) {
-                Input::Compiler(s, d) => outputs(&s, &d).into_iter().map(|(k, v)| format!("{k}={:016x}", fnv(&v))).collect::<Vec<_>>().join(" "),
+                Input::Compiler(s, d) => {
+                    let outs = outputs(&s, &d);
+                    let missing = outs.iter().any(|(k, v)| *k == "builtin-scalars-defined-after-build" && v != "true");
+                    let mut l = outs.into_iter().map(|(k, v)| format!("{k}={:016x}", fnv(&v))).collect::<Vec<_>>().join(" ");
+                    if missing { l.push_str(" BUILTIN-MISSING=1"); }
+                    l
+                }
                 Input::Smith(bytes, base) => format!("smith={:016x}", fnv(&smith_outputs(&bytes, base.as_deref()))),
             }) { Ok(l) => l, Err(p) => format!("PANIC {}", p.replace('\n', " ")) };
             println!("{kind}\t{idx}\t{line}");
         }
     }
+    // not an input text: a validated schema edited in memory so that several pruned built-in scalars are used
+    // again (the audited site `used_and_undefined`); reported as a statistic, outside the property's quantifier
+    for (idx, adds) in [vec!["Int", "Float", "ID"], vec!["ID", "Int"], vec!["Float", "ID", "Int"]].iter().enumerate() {
+        let line = catch(|| inmemory_restore(adds)).unwrap_or_else(|p| format!("PANIC {p}"));
+        println!("edit\t{idx}\ttype-order={line}");
+    }
     println!("DONE");
+}
+
+fn inmemory_restore(adds: &[&str]) -> String {
+    let Ok(valid) = Schema::parse_and_validate("type Query { a: String }", "s.graphql") else { return "invalid".into() };
+    let mut cur = valid.into_inner();
+    let before = cur.types.keys().map(|k| k.to_string()).collect::<Vec<_>>();
+    let Some(ExtendedType::Object(q)) = cur.types.get_mut("Query") else { return "no-query".into() };
+    for (i, b) in adds.iter().enumerate() {
+        let fname = apollo_compiler::Name::new(&format!("extra{i}")).unwrap();
+        let fdef = apollo_compiler::schema::FieldDefinition { description: None, name: fname.clone(), arguments: vec![], ty: ast::Type::Named(apollo_compiler::Name::new(b).unwrap()), directives: Default::default() };
+        q.make_mut().fields.insert(fname, apollo_compiler::schema::Component::new(fdef));
+    }
+    match cur.validate() {
+        Ok(v) => format!("{}->{}", before.len(), v.types.keys().map(|k| k.as_str()).filter(|k| adds.contains(k)).collect::<Vec<_>>().join(",")),
+        Err(e) => format!("ERR {}", e.errors.to_string().lines().next().unwrap_or("")),
+    }
 }
 
 fn unusedvars_stream(ctx: &mut Ctx) {
@@ -182,8 +446,56 @@ fn unusedvars_stream(ctx: &mut Ctx) {
     }
 }
 
+/// the built-in scalar bookkeeping of `validate_schema` on schemas edited in memory (the only way to reach the
+/// audited iteration site): keys of `schema.types` before / after, against the model `finalTypes`
+fn restore_stream(ctx: &mut Ctx) {
+    const B: [&str; 5] = ["Int", "Float", "String", "Boolean", "ID"];
+    let code = |order: &mut Vec<String>, k: &str| -> usize { if let Some(i) = B.iter().position(|b| *b == k) { i } else { if let Some(p) = order.iter().position(|x| x == k) { 10 + p } else { order.push(k.to_string()); 10 + order.len() - 1 } } };
+    let mut seqs: Vec<Vec<usize>> = vec![vec![]];
+    for a in 0..5 { seqs.push(vec![a]); for b in 0..5 { seqs.push(vec![a, b]); if ctx.thorough || (a + b) % 2 == 0 { for c in 0..5 { seqs.push(vec![a, b, c]); } } } }
+    for mask in 0..8u32 {
+        let mut text = String::from("type Query { a: String");
+        if mask & 1 != 0 { text.push_str(" i: Int"); } if mask & 2 != 0 { text.push_str(" f: Float"); } if mask & 4 != 0 { text.push_str(" d: ID"); }
+        text.push_str(" }");
+        let Ok(valid) = Schema::parse_and_validate(&text, "s.graphql") else { ctx.fail("restore-generator-invalid", &text, ""); continue };
+        for adds in &seqs {
+            let mut cur = valid.clone().into_inner();
+            let Some(ExtendedType::Object(q)) = cur.types.get_mut("Query") else { continue };
+            for (i, b) in adds.iter().enumerate() {
+                let fname = apollo_compiler::Name::new(&format!("extra{i}")).unwrap();
+                let fdef = apollo_compiler::schema::FieldDefinition { description: None, name: fname.clone(), arguments: vec![], ty: ast::Type::NonNullNamed(apollo_compiler::Name::new(B[*b]).unwrap()), directives: Default::default() };
+                q.make_mut().fields.insert(fname, apollo_compiler::schema::Component::new(fdef));
+            }
+            let mut order: Vec<String> = vec![];
+            let before: Vec<usize> = cur.types.keys().map(|k| code(&mut order, k.as_str())).collect();
+            // every reference to a built-in scalar anywhere in the schema
+            let mut refs: Vec<usize> = vec![];
+            let mut see = |t: &ast::Type| { if let Some(i) = B.iter().position(|b| *b == t.inner_named_type().as_str()) { refs.push(i); } };
+            for d in cur.directive_definitions.values() { for a in &d.arguments { see(&a.ty); } }
+            for t in cur.types.values() {
+                match t {
+                    ExtendedType::Object(o) => for f in o.fields.values() { see(&f.ty); for a in &f.arguments { see(&a.ty); } },
+                    ExtendedType::Interface(o) => for f in o.fields.values() { see(&f.ty); for a in &f.arguments { see(&a.ty); } },
+                    ExtendedType::InputObject(o) => for f in o.fields.values() { see(&f.ty); },
+                    _ => {}
+                }
+            }
+            let after: Vec<usize> = match cur.validate() { Ok(v) => v.types.keys().map(|k| code(&mut order, k.as_str())).collect(), Err(e) => { ctx.fail("restore-validate-failed", &text, &e.errors.to_string()); continue } };
+            let kept: Vec<usize> = after.iter().copied().filter(|k| before.contains(k)).collect();
+            let mut restored: Vec<usize> = after.iter().copied().filter(|k| !before.contains(k)).collect();
+            // an `IndexMap` insert appends: the restored definitions are the tail of the map
+            if [kept.clone(), restored.clone()].concat() != after { ctx.fail("restored-scalar-not-appended", &text, &format!("adds {adds:?}: keys {after:?}")); }
+            if restored.len() >= 2 { ctx.stat("restore_two_or_more"); ctx.nontrivial(&format!("{mask}{adds:?}")); }
+            restored.sort();
+            let s = |v: &[usize]| v.iter().map(|x| x.to_string()).collect::<Vec<_>>().join(",");
+            ctx.case("restore", &[s(&before), s(&refs)], &s(&[kept, restored].concat()));
+        }
+    }
+}
+
 pub fn run(ctx: &mut Ctx) {
     unusedvars_stream(ctx);
+    restore_stream(ctx);
     let plan = if ctx.thorough { Plan { seed: ctx.seed, soups: 8_000, vars: 8_000, smith: 6_000 } } else { Plan { seed: ctx.seed, soups: 1_200, vars: 1_500, smith: 1_200 } };
     let procs = if ctx.thorough { 8 } else { 4 };
     let spec = format!("{}:{}:{}:{}", plan.seed, plan.soups, plan.vars, plan.smith);
@@ -201,6 +513,17 @@ pub fn run(ctx: &mut Ctx) {
         if f.len() < 3 { continue }
         ctx.stat(&format!("inputs:{}", f[0]));
         if f[2].starts_with("PANIC") { ctx.fail(&format!("panic:{}", f[0]), &format!("{} {}", f[0], f[1]), f[2]); }
+        if f[0] == "edit" {
+            // in-memory edit (not an input text): only recorded
+            let same = lines[1..].iter().all(|o| o[li] == first);
+            ctx.stat(if same { "inmemory_restore_type_order_same" } else { "inmemory_restore_type_order_differs" });
+            if !f[2].contains("->") || f[2].contains("ERR") { ctx.fail("inmemory-restore-failed", f[1], f[2]); }
+            continue;
+        }
+        if f[2].contains("BUILTIN-MISSING") {
+            let idx: u64 = f[1].parse().unwrap_or(0);
+            if let Input::Compiler(s, _) = input(plan, f[0], idx) { ctx.fail("builtin-scalar-missing-after-build", &s, "a schema built from text does not define all five built-in scalars: the audited site `used_and_undefined` is reachable from text"); }
+        }
         for label in f[2].split(' ') { if let Some((k, _)) = label.split_once('=') { ctx.stat(&format!("compared:{k}")); } }
         let mut differing: Vec<String> = vec![];
         for other in &lines[1..] {
